@@ -76,6 +76,55 @@ def detect(sid, props):
         sh('cd %s && git checkout -- evidence/%s.json' % (ROOT, p))
 
 
+def regress(sids, workers=4):
+    """Detection of many stored changes in parallel: each worker owns a scratch worktree of /repo (HEAD + the change) and an
+    output directory of its own; /repo and the committed evidence are not touched."""
+    import queue, threading, shutil, glob
+    sids = sids or sorted(os.path.basename(d) for d in glob.glob(os.path.join(ROOT, 'seeded', '*')) if os.path.isdir(d))
+    head = sh('git -C %s rev-parse --short HEAD' % REPO).stdout.strip()
+    q = queue.Queue()
+    for s_ in sids: q.put(s_)
+    lock = threading.Lock()
+    def work(i):
+        wt = '/tmp/wt/rg%d' % i; out = '/tmp/wt/rg%d_out' % i
+        sh('git -C %s worktree remove --force %s' % (REPO, wt)); shutil.rmtree(out, ignore_errors=True)
+        r = sh('git -C %s worktree add -q --detach %s HEAD' % (REPO, wt)); assert r.returncode == 0, r.stderr
+        os.makedirs(out, exist_ok=True)
+        try:
+            while True:
+                try: sid = q.get_nowait()
+                except queue.Empty: break
+                dst = os.path.join(ROOT, 'seeded', sid)
+                meta = json.load(open(os.path.join(dst, 'meta.json')))
+                a = sh('git -C %s apply %s' % (wt, os.path.join(dst, 'patch.diff')))
+                if a.returncode != 0:
+                    with lock: print(sid, 'DOES-NOT-APPLY', flush=True)
+                    continue
+                res = {}
+                try:
+                    props = list((meta.get('detection') or {}).keys()) or [meta['property']]
+                    # the property the change was written against first; stop at the first check that reports it
+                    props = [meta['property']] + [p for p in props if p != meta['property']]
+                    for p in props:
+                        t = time.time()
+                        r = sh('cd %s && ROCKIT_REPO=%s VERIF_OUT=%s ./check %s --tier quick' % (ROOT, wt, out, p))
+                        viol = [l for l in r.stdout.splitlines() if l.startswith('VIOLATION')]
+                        clauses = sorted({l.strip().split()[0] for l in r.stdout.splitlines() if l.strip().startswith('clause=')})
+                        res[p] = {'exit': r.returncode, 'violations': len(viol), 'clauses': clauses[:8], 'wall_s': round(time.time() - t, 1)}
+                        if r.returncode == 1 and viol: break
+                finally:
+                    sh('git -C %s checkout -q -- . && git -C %s clean -fdq' % (wt, wt))
+                meta['regress'] = {'head': head, 'results': res, 'detected': any(v['exit'] == 1 and v['violations'] for v in res.values())}
+                json.dump(meta, open(os.path.join(dst, 'meta.json'), 'w'), indent=1)
+                with lock: print(sid, 'DETECTED' if meta['regress']['detected'] else 'MISSED', {k: (v['exit'], v['clauses'][:2]) for k, v in res.items()}, flush=True)
+        finally:
+            sh('git -C %s worktree remove --force %s' % (REPO, wt)); shutil.rmtree(out, ignore_errors=True)
+    ths = [threading.Thread(target=work, args=(i,)) for i in range(workers)]
+    for t in ths: t.start()
+    for t in ths: t.join()
+
+
 if __name__ == '__main__':
     if sys.argv[1] == 'verify': verify(*sys.argv[2:6])
     elif sys.argv[1] == 'detect': detect(sys.argv[2], sys.argv[3:])
+    elif sys.argv[1] == 'regress': regress(sys.argv[2:])
